@@ -252,12 +252,17 @@ fn c09_e2e(ctx: &mut Ctx) {
     use crate::props_validate::{accept_job, run_jobs, simple_logical};
     let mut rng = ctx.rng.fork();
     let mut jobs = Vec::new();
+    let mut jobs2 = Vec::new();
     for k in 0..ctx.n(400, 8000) {
         let donor = random_logical(&mut rng);
         let mut l = simple_logical(if k % 2 == 0 { Carrier::Header } else { Carrier::Query }, 1_440_938_160_000_000_000);
         l.segments = donor.segments;
         l.trailing_slash = donor.trailing_slash;
         l.s3 = donor.s3;
+        // the path rules follow the S3 option alone: the folding option (here without any form body) and the
+        // method play no part in them
+        l.fold = k % 3 == 0;
+        l.method = ["GET", "OPTIONS", "PUT", "DELETE", "get"][k % 5].into();
         let mut sp = Spelling::plain();
         sp.respell = k % 3 != 0;
         sp.path_noise = k % 4 == 1;
@@ -268,7 +273,34 @@ fn c09_e2e(ctx: &mut Ctx) {
         }
         jobs.push(accept_job(&s, "c09-e2e", "C09: a request signed over the reference normal form of its path was refused (path spelling, request-target form or mode handling differs from the reference)"));
     }
+    // request targets that are not an absolute path: the asterisk form is a relative path (400), whatever it is
+    // signed over; the authority form has the empty path (canonical form "/")
+    for k in 0..12 {
+        let mut l = simple_logical(if k % 2 == 0 { Carrier::Header } else { Carrier::Query }, 1_440_938_160_000_000_000);
+        l.segments.clear();
+        l.query.clear();
+        l.s3 = k % 4 >= 2;
+        l.fold = k % 3 == 0;
+        l.method = if k < 6 { "OPTIONS".into() } else { "CONNECT".into() };
+        let now = now_for(&l, 0);
+        let s = sign_and_spell(&l, &mut rng, &Spelling::plain(), now);
+        let mut c = s.case.clone();
+        let q = c.uri.find('?').map(|i| c.uri[i..].to_string()).unwrap_or_default();
+        if k < 6 {
+            if !q.is_empty() {
+                continue; // "*" takes no query
+            }
+            c.uri = "*".into();
+            let mut j = crate::props_validate::job(c, crate::props_validate::Expect::Refuse(Some("InvalidURIPath")), "c09-asterisk-form", "C09: the request target `*` is not an absolute path: it must be refused as an invalid path (400), not canonicalised to `/`");
+            j.expect_calls = Some(0);
+            jobs2.push(j);
+        } else if q.is_empty() {
+            c.uri = "example.amazonaws.com:443".into();
+            jobs2.push(crate::props_validate::job(c, crate::props_validate::Expect::Any, "c09-authority-form", ""));
+        }
+    }
     run_jobs(ctx, "VALIDATE", jobs);
+    run_jobs(ctx, "VALIDATE", jobs2);
 }
 
 pub fn c09(ctx: &mut Ctx) {
@@ -480,9 +512,11 @@ fn qparse_tri(q: &[u8]) -> Tri {
     }
 }
 
-const Q_ATOMS: [&[u8]; 16] = [
+const Q_ATOMS: [&[u8]; 18] = [
     b"a=1", b"a=2", b"a-=1", b"a.=1", b"a0=1", b"a%21=1", b"A=1", b"=v", b"a=", b"a", b"a=b=c", b"?b=2",
     b"X-Amz-Signature=abc", b"X-Amz-%53ignature=d", b"b=%20+x", b"",
+    // only the exact name is the signature parameter
+    b"x-amz-signature=e", b"X-AMZ-SIGNATURE=F",
 ];
 
 /// The query as the entry point sees it: reference-signed requests whose only unusual dimension is the
@@ -529,13 +563,13 @@ pub fn c10_direct(ctx: &mut Ctx) {
     let k = ctx.n(3, 4);
     let mut count = 0u64;
     for len in 0..=k {
-        let total = 16usize.pow(len as u32);
+        let total = Q_ATOMS.len().pow(len as u32);
         for idx in 0..total {
             let mut parts: Vec<&[u8]> = Vec::new();
             let mut x = idx;
             for _ in 0..len {
-                parts.push(Q_ATOMS[x % 16]);
-                x /= 16;
+                parts.push(Q_ATOMS[x % Q_ATOMS.len()]);
+                x /= Q_ATOMS.len();
             }
             let q = parts.join(&b'&');
             tris.push(qcanon_tri(&q));
@@ -555,7 +589,7 @@ pub fn c10_direct(ctx: &mut Ctx) {
     for _ in 0..n {
         let np = rng.below(7);
         let mut pairs: Vec<(Vec<u8>, Vec<u8>)> = Vec::new();
-        let names: [&[u8]; 13] = [b"a", b"a-", b"a.", b"a0", b"a!", b"A", b"", b"b c", b"X-Amz-Signature", b"k\xc3\xa9", b"?b", b"?", b"a?"];
+        let names: [&[u8]; 16] = [b"a", b"a-", b"a.", b"a0", b"a!", b"A", b"", b"b c", b"X-Amz-Signature", b"k\xc3\xa9", b"?b", b"?", b"a?", b"x-amz-signature", b"X-AMZ-SIGNATURE", b"X-Amz-Signature "];
         if rng.chance(1, 12) {
             // many pairs under few names with distinct values: beyond what small-slice sorting paths cover
             let many = 21 + rng.below(70);
@@ -640,7 +674,9 @@ pub fn c06(ctx: &mut Ctx) {
         // days whose ISO week-based year differs from the calendar year
         (2018, 12, 31), (2016, 1, 1), (2021, 1, 3), (2024, 12, 30), (2012, 1, 1), (2019, 12, 30),
     ];
-    let strs: Vec<String> = vec!["".into(), "us-east-1".into(), "iam".into(), "é".into(), "区域".into(), " ".into(), "a/b".into(), "\u{0}".into()];
+    let strs: Vec<String> = vec!["".into(), "us-east-1".into(), "iam".into(), "é".into(), "区域".into(), " ".into(), "a/b".into(), "\u{0}".into(),
+        // longer than any abbreviation threshold, with multi-byte characters across every small offset
+        format!("eu-{}", "ü".repeat(40)), format!("{}東京-service", "s".repeat(30)), format!("{}é{}", "x".repeat(31), "y".repeat(300)), "ü".repeat(200)];
     let mut tris = Vec::new();
     // every secret length 0..=48 at the default capacity, each with several dates/regions/services
     for len in 0..=48usize {
@@ -657,7 +693,16 @@ pub fn c06(ctx: &mut Ctx) {
                     _ => (0..len).map(|_| '\0').collect(),
                 }
             } else {
-                (0..len).map(|_| *rng.pick(b"abcXYZ019/+=\0 \x7f") as char).collect()
+                let mut t: String = (0..len).map(|_| *rng.pick(b"abcXYZ019/+=\0 \x7f\n\r\t") as char).collect();
+                // line terminators and blanks at either end are secret bytes like any other
+                if len > 0 && rng.chance(1, 3) {
+                    t.pop();
+                    t.push(*rng.pick(&['\n', '\r', ' ', '\t']));
+                }
+                if len > 1 && rng.chance(1, 6) {
+                    t.replace_range(0..1, *rng.pick(&["\n", " ", "\r"]));
+                }
+                t
             };
             let (y, m, d) = *rng.pick(&dates);
             let region = rng.pick(&strs).clone();
@@ -818,9 +863,9 @@ pub fn c16(ctx: &mut Ctx) {
         }
     }
     // (d) fraction lengths 0..12 with '.' and ','
-    for l in 0..=12 {
+    for l in [0usize, 1, 2, 3, 4, 5, 6, 7, 8, 9, 10, 11, 12, 18, 19, 20, 21, 25, 40, 100] {
         for sep in [".", ","] {
-            let digits: String = (0..l).map(|i| char::from(b'1' + (i % 9) as u8)).collect();
+            let digits: String = (0..l).map(|i| char::from(if l > 12 && i % 2 == 0 { b'9' } else { b'1' + (i % 9) as u8 })).collect();
             let frac = format!("{}{}", sep, digits);
             tris.push(iso_tri(render_iso(2015, 8, 30, 12, 36, 0, 0, &frac, "Z").as_bytes()));
             tris.push(iso_tri(render_iso(2015, 8, 30, 12, 36, 59, 15, &frac, "+05:45").as_bytes()));
